@@ -205,7 +205,7 @@ class SeqGen:
                         bops += self.g.markers(bid, info)
                 if seg_markers:
                     names = canonical_names([basename(o["name"]["s"]) if o.get("name") else
-                                             (o["fn"] if isinstance(o["fn"], str) else o["fn"]["name"]).rstrip("0123456789")
+                                             {"gsc": "gaussian_smooth_cutoff"}.get(o["fn"], o["fn"] if isinstance(o["fn"], str) else o["fn"]["name"]).rstrip("0123456789")
                                              for o in bops if o["op"] == "bp.insert"])
                     bops += self.g.seg_marker_ops(bid, names, info)
                 ops += bops
